@@ -228,6 +228,73 @@ fn c12_decode_fields_222() {
     decode_fields(2, 2, 2);
 }
 
+// decode: the flags field (0..=3 bytes) and the version field (2 bytes) on their own: `00-a-b-XYZ`
+// and `VW-a-b-01` with X, Y, Z / V, W arbitrary ASCII bytes (including '-', which changes the number of fields): accepted
+// iff the reference parser accepts, sampled = lowest bit of the flags value, only version 00.
+// (a symbolic field LENGTH in one query did not finish in 10 min; one query per length does)
+#[kani::proof]
+#[kani::unwind(12)]
+#[kani::stub(core::slice::memchr::memchr, memchr_stub)]
+fn c12_decode_flags1() {
+    let mut buf: [u8; 8] = *b"00-a-b-0";
+    let x: u8 = kani::any();
+    kani::assume(x < 128);
+    buf[7] = x;
+    check_decode_against_reference(&buf);
+    check_decode_against_reference(&buf[..7]); // empty flags field
+    kani::cover!(x == b'1', "one-digit flags field: accepted, sampled");
+    kani::cover!(x == b'g');
+}
+
+#[kani::proof]
+#[kani::unwind(12)]
+#[kani::stub(core::slice::memchr::memchr, memchr_stub)]
+fn c12_decode_flags2() {
+    let mut buf: [u8; 9] = *b"00-a-b-00";
+    let x: u8 = kani::any();
+    let y: u8 = kani::any();
+    kani::assume(x < 128 && y < 128);
+    buf[7] = x;
+    buf[8] = y;
+    check_decode_against_reference(&buf);
+    kani::cover!(x == b'f' && y == b'e', "flags fe: accepted, unsampled");
+    kani::cover!(x == b'0' && y == b'3', "flags 03: accepted, sampled");
+    kani::cover!(x == b'-', "a fifth field");
+}
+
+#[kani::proof]
+#[kani::unwind(13)]
+#[kani::stub(core::slice::memchr::memchr, memchr_stub)]
+fn c12_decode_flags3() {
+    let mut buf: [u8; 10] = *b"00-a-b-000";
+    let x: u8 = kani::any();
+    let y: u8 = kani::any();
+    let z: u8 = kani::any();
+    kani::assume(x < 128 && y < 128 && z < 128);
+    buf[7] = x;
+    buf[8] = y;
+    buf[9] = z;
+    check_decode_against_reference(&buf);
+    kani::cover!(x == b'1' && y == b'0' && z == b'1', "flags 101 does not fit a byte");
+    kani::cover!(x == b'0' && y == b'0' && z == b'1', "flags 001: accepted");
+    kani::cover!(y == b'-', "a fifth field");
+}
+
+#[kani::proof]
+#[kani::unwind(12)]
+#[kani::stub(core::slice::memchr::memchr, memchr_stub)]
+fn c12_decode_version2() {
+    let mut buf: [u8; 9] = *b"00-a-b-01";
+    let v: u8 = kani::any();
+    let w: u8 = kani::any();
+    kani::assume(v < 128 && w < 128);
+    buf[0] = v;
+    buf[1] = w;
+    check_decode_against_reference(&buf);
+    kani::cover!(v == b'0' && w == b'0');
+    kani::cover!(v == b'0' && w == b'1', "version 01 is rejected");
+}
+
 // decode: a VALID header with a 17-digit trace id in which ONE byte (symbolic position) is
 // replaced by an arbitrary ASCII byte: result equals the reference parser (every single-byte
 // corruption: a '+', a 'g', an upper-case digit, a '-' anywhere).  The canonical 55-byte header
